@@ -156,6 +156,11 @@ def mentions_of(text, universe):
     return sorted(i for i in ids if i in universe)
 
 
+def sp(schema):
+    """`aux.` prefix of a name in an ATTACHed database"""
+    return "%s." % q(schema) if schema else ""
+
+
 def create_table_sql(t):
     parts = []
     for c in t["cols"]:
@@ -183,11 +188,11 @@ def create_table_sql(t):
         pre = "CONSTRAINT %s " % q(f["name"]) if f["name"] else ""
         parts.append("%sFOREIGN KEY(%s) REFERENCES %s (%s)" % (
             pre, ", ".join(q(c) for c in f["cols"]), q(f["rtable"]), ", ".join(q(c) for c in f["rcols"])))
-    return "CREATE TABLE %s (\n\t%s\n)" % (q(t["name"]), ", \n\t".join(parts))
+    return "CREATE TABLE %s%s (\n\t%s\n)" % (sp(t.get("schema")), q(t["name"]), ", \n\t".join(parts))
 
 
-def index_sql(tname, ix):
-    return "CREATE %sINDEX %s ON %s (%s)%s" % ("UNIQUE " if ix["unique"] else "", q(ix["name"]), q(tname),
+def index_sql(tname, ix, schema=None):
+    return "CREATE %sINDEX %s%s ON %s (%s)%s" % ("UNIQUE " if ix["unique"] else "", sp(schema), q(ix["name"]), q(tname),
                                                ", ".join(q(c) for c in ix["cols"]),
                                                " WHERE %s" % ix["where"] if ix.get("where") else "")
 
@@ -215,19 +220,20 @@ def sa_table(t, metadata=None):
     for k in t["checks"]:
         args.append(sa.CheckConstraint(sa.text(k["text"]), name=k["name"]))
     for f in t["fks"]:
-        args.append(sa.ForeignKeyConstraint(f["cols"], ["%s.%s" % (f["rtable"], c) for c in f["rcols"]], name=f["name"]))
+        pre = "%s." % t["schema"] if t.get("schema") else ""      # schema-qualified referent, as reflection gives it
+        args.append(sa.ForeignKeyConstraint(f["cols"], ["%s%s.%s" % (pre, f["rtable"], c) for c in f["rcols"]], name=f["name"]))
     for ix in t["indexes"]:
         ikw = {"sqlite_where": sa.text(ix["where"])} if ix.get("where") else {}
         args.append(sa.Index(ix["name"], *ix["cols"], unique=ix["unique"], **ikw))
-    return sa.Table(t["name"], m, *args)
+    return sa.Table(t["name"], m, *args, schema=t.get("schema"))
 
 
 # ------------------------------------------------------------------------------- observation
 
-def observe_table(conn, name, universe=()):
+def observe_table(conn, name, universe=(), schema=None):
     with warnings.catch_warnings():
         warnings.simplefilter("ignore")
-        return _observe_table(conn, name, universe)
+        return _observe_table(conn, name, universe, schema)
 
 
 def generated_expr(sql, colname):
@@ -247,13 +253,13 @@ def generated_expr(sql, colname):
     return expr, bool(re.match(r"\s*STORED", sql[j:], re.I))
 
 
-def _observe_table(conn, name, universe=()):
+def _observe_table(conn, name, universe=(), schema=None):
     insp = sa.inspect(conn)
     insp.clear_cache()
-    if not insp.has_table(name):
+    if not insp.has_table(name, schema=schema):
         return None
     cols = []
-    for c in insp.get_columns(name):
+    for c in insp.get_columns(name, schema=schema):
         ty = c["type"]
         try:
             tok = type_token(ty)
@@ -264,11 +270,11 @@ def _observe_table(conn, name, universe=()):
                      "pk": bool(c.get("primary_key")),
                      "computed": " ".join(str(c["computed"]["sqltext"]).split()) if c.get("computed") else None,
                      "persisted": bool(c["computed"].get("persisted")) if c.get("computed") else False})
-    pkc = insp.get_pk_constraint(name)
+    pkc = insp.get_pk_constraint(name, schema=schema)
     pk = {"name": pkc.get("name"), "cols": list(pkc["constrained_columns"])} if pkc and pkc.get("constrained_columns") else None
     # UNIQUE constraints are read from the stored CREATE TABLE text: the inspector collapses two UNIQUE
     # constraints over the same column set into one (SQLite keeps a single automatic index for them)
-    sql = conn.exec_driver_sql("SELECT sql FROM sqlite_master WHERE type='table' AND name=?", (name,)).scalar() or ""
+    sql = conn.exec_driver_sql("SELECT sql FROM %ssqlite_master WHERE type='table' AND name=?" % sp(schema), (name,)).scalar() or ""
     uniques = sorted(({"name": (m.group(1) or "").strip('"') or None,
                        "cols": [c.strip().strip('"') for c in m.group(2).split(",")]}
                       for m in re.finditer(r"(?:CONSTRAINT (\S+) )?UNIQUE \(([^)]*)\)", sql)),
@@ -279,7 +285,7 @@ def _observe_table(conn, name, universe=()):
             c["computed"], c["persisted"] = generated_expr(sql, c["name"])
         c["computed_mentions"] = mentions_of(c["computed"], names) if c.get("computed") else []
     checks = sorted(({"name": k.get("name"), "text": k["sqltext"], "mentions": mentions_of(k["sqltext"], names),
-                      "pred": parse_pred(k["sqltext"])} for k in insp.get_check_constraints(name)),
+                      "pred": parse_pred(k["sqltext"])} for k in insp.get_check_constraints(name, schema=schema)),
                     key=lambda k: (k["name"] or "", k["text"]))
     # same for FOREIGN KEY constraints (the inspector collapses identical ones)
     fks = sorted(({"name": (m.group(1) or "").strip('"') or None,
@@ -289,29 +295,37 @@ def _observe_table(conn, name, universe=()):
                  key=lambda f: (f["name"] or "", f["cols"]))
     # the WHERE predicate of a partial index is read from the stored CREATE INDEX text
     isql = {r[0]: r[1] or "" for r in conn.exec_driver_sql(
-        "SELECT name, sql FROM sqlite_master WHERE type='index' AND tbl_name=?", (name,)).fetchall()}
+        "SELECT name, sql FROM %ssqlite_master WHERE type='index' AND tbl_name=?" % sp(schema), (name,)).fetchall()}
 
     def where_of(iname):
         m = re.search(r"\)\s*WHERE\s+(.*)$", " ".join(isql.get(iname, "").split()), re.I)
         return norm_where(m.group(1)) if m else None
 
     indexes = []
-    for i in insp.get_indexes(name):
+    for i in insp.get_indexes(name, schema=schema):
         w = where_of(i["name"])
         indexes.append({"name": i["name"], "cols": list(i["column_names"]), "unique": bool(i["unique"]), "where": w,
                         "where_mentions": mentions_of(w, names) if w else [], "where_pred": parse_pred(w) if w else None})
     indexes.sort(key=lambda i: i["name"])
-    rows = [[enc_value(v) for v in r] for r in conn.exec_driver_sql("SELECT * FROM %s" % q(name)).fetchall()]
-    return {"name": name, "cols": cols, "pk": pk, "uniques": uniques, "checks": checks, "fks": fks,
+    rows = [[enc_value(v) for v in r] for r in conn.exec_driver_sql("SELECT * FROM %s%s" % (sp(schema), q(name))).fetchall()]
+    return {"name": name, "schema": schema, "cols": cols, "pk": pk, "uniques": uniques, "checks": checks, "fks": fks,
             "indexes": indexes, "rows": rows}
 
 
-def observe_db(conn, tname, universe=()):
+def observe_db(conn, tname, universe=(), schema=None):
+    """the database the table lives in: `main`, or the ATTACHed database `schema` (its own sqlite_master)"""
     tmp = ("_alembic_tmp_%s" % tname)[0:50]
     names = [r[0] for r in conn.exec_driver_sql(
-        "SELECT name FROM sqlite_master WHERE type='table' ORDER BY name").fetchall()]
-    return {"tables": names, "orig": observe_table(conn, tname, universe), "tmp": observe_table(conn, tmp, universe),
-            "tmp_like": [n for n in names if n.startswith("_alembic_tmp_")]}
+        "SELECT name FROM %ssqlite_master WHERE type='table' ORDER BY name" % sp(schema)).fetchall()]
+    out = {"tables": names, "orig": observe_table(conn, tname, universe, schema), "tmp": observe_table(conn, tmp, universe, schema),
+           "tmp_like": [n for n in names if n.startswith("_alembic_tmp_")]}
+    if schema:
+        # a table of the same name in `main` (if any) and stray temp tables there must never be touched
+        out["main"] = [(r[0], r[1]) for r in conn.exec_driver_sql(
+            "SELECT name, sql FROM main.sqlite_master WHERE type='table' ORDER BY name").fetchall()]
+        if any(n == tname for n, _ in out["main"]):
+            out["main_rows"] = [list(r) for r in conn.exec_driver_sql("SELECT * FROM main.%s" % q(tname)).fetchall()]
+    return out
 
 
 # ------------------------------------------------------------------------------- statements
@@ -319,8 +333,11 @@ def observe_db(conn, tname, universe=()):
 _IGN = re.compile(r"^\s*(PRAGMA|SELECT|BEGIN)\b", re.I)
 
 
-def abstract_stmt(sql, tname):
+def abstract_stmt(sql, tname, schema=None):
     s = " ".join(sql.split())
+    if schema:
+        # every name is qualified with the schema of the table (CREATE INDEX aux.ix ON t ...): the model is schema-agnostic
+        s = re.sub(r"(?<![\w.])%s\." % re.escape(q(schema)), "", s)
     tmp = ("_alembic_tmp_%s" % tname)[0:50]
     qt, qtmp = re.escape(q(tname)), re.escape(q(tmp))
     if re.match(r"CREATE TABLE %s \(" % qtmp, s):
@@ -400,7 +417,7 @@ def existing_type_of(o):
     return sa.Boolean(create_constraint=True, name=n)
 
 
-def apply_op(b, o):
+def apply_op(b, o, schema=None):
     k = o["op"]
     if k == "add_column":
         c = o["col"]
@@ -411,6 +428,18 @@ def apply_op(b, o):
             kw["index"] = True
         if c.get("unique"):
             kw["unique"] = True
+        if o.get("fk"):
+            # a named column-level ForeignKey: toimpl.add_column forwards its constraint to add_constraint
+            f = o["fk"]
+            pre = "%s." % schema if (schema and not f.get("unqualified")) else ""
+            col = sa.Column(c["name"], sa_type(c["ty"]), sa.ForeignKey("%s%s.%s" % (pre, f["rtable"], f["rcols"][0]), name=f["name"]), **kw)
+            pos = {}
+            if o.get("before"):
+                pos["insert_before"] = o["before"]
+            if o.get("after"):
+                pos["insert_after"] = o["after"]
+            b.add_column(col, **pos)
+            return
         if c.get("computed"):
             kw.pop("server_default", None)
             col = sa.Column(c["name"], sa_type(c["ty"]), sa.Computed(c["computed"], persisted=True))
@@ -457,7 +486,10 @@ def apply_op(b, o):
     elif k == "add_check":
         b.create_check_constraint(o["name"], o["text"])
     elif k == "add_fk":
-        b.create_foreign_key(o["name"], o["rtable"], o["cols"], o["rcols"])
+        # with schema=: the referent lives in the same ATTACHed database (without referent_schema the batch is rejected with
+        # NoReferencedTableError before any statement)
+        b.create_foreign_key(o["name"], o["rtable"], o["cols"], o["rcols"],
+                             **({"referent_schema": schema} if (schema and not o.get("unqualified")) else {}))
     elif k == "add_pk":
         b.create_primary_key(o["name"], o["cols"])
     elif k == "drop_constraint":
@@ -509,6 +541,10 @@ def exc_kind(e):
         return "keyError"
     if n == "NoSuchTableError":
         return "noSuchTable"
+    if n == "NoReferencedTableError":
+        return "noReferencedTable"
+    if n == "NoReferencedColumnError":
+        return "noReferencedColumn"
     if n == "ValueError":
         if "No such constraint" in msg:
             return "noSuchConstraint"
@@ -527,7 +563,7 @@ def exc_kind(e):
 class Db:
     """one scratch SQLite database file holding the table under test (+ a referred table)"""
 
-    def __init__(self, table, extra_sql=(), iso="default"):
+    def __init__(self, table, extra_sql=(), iso="default", main_twin=False):
         """iso: 'default' (pysqlite legacy transaction control), 'autocommit' (isolation_level="AUTOCOMMIT"),
         'begin' (the documented recipe: driver isolation_level=None + BEGIN emitted on SQLAlchemy's begin event)"""
         self.dir = tempfile.mkdtemp(prefix="verif_batch_")
@@ -546,16 +582,28 @@ class Db:
                 conn.exec_driver_sql("BEGIN")
         self.iso = iso
         self.table = table
+        schema = self.schema = table.get("schema")
+        if schema:
+            # the table lives in an ATTACHed database (batch_alter_table(..., schema=schema)); attached on every connection
+            aux = os.path.join(self.dir, "aux.db")
+
+            @event.listens_for(self.engine, "connect")
+            def _attach(dbapi_connection, connection_record):
+                dbapi_connection.execute("ATTACH DATABASE '%s' AS %s" % (aux, q(schema)))
         with self.engine.connect() as conn:
             for s in extra_sql:
-                conn.exec_driver_sql(s)
+                conn.exec_driver_sql(re.sub(r"^(CREATE TABLE|INSERT INTO) ", lambda m: m.group(0) + sp(schema), s))
+            if main_twin:
+                # a different table of the same name in `main`
+                conn.exec_driver_sql("CREATE TABLE main.%s (zz INTEGER)" % q(table["name"]))
+                conn.exec_driver_sql("INSERT INTO main.%s VALUES (42)" % q(table["name"]))
             conn.exec_driver_sql(create_table_sql(table))
             for ix in table["indexes"]:
-                conn.exec_driver_sql(index_sql(table["name"], ix))
+                conn.exec_driver_sql(index_sql(table["name"], ix, schema))
             if table["rows"]:
                 keep = [i for i, c in enumerate(table["cols"]) if not c.get("computed")]     # generated columns are not inserted
-                conn.exec_driver_sql("INSERT INTO %s (%s) VALUES (%s)" % (
-                    q(table["name"]), ", ".join(q(table["cols"][i]["name"]) for i in keep), ", ".join("?" for _ in keep)),
+                conn.exec_driver_sql("INSERT INTO %s%s (%s) VALUES (%s)" % (
+                    sp(schema), q(table["name"]), ", ".join(q(table["cols"][i]["name"]) for i in keep), ", ".join("?" for _ in keep)),
                     [tuple(dec_value(r[i]) for i in keep) for r in table["rows"]])
             conn.commit()
 
@@ -573,10 +621,11 @@ def run_batch(db, ops, recreate="always", copy_from=False, fault=None, scope="no
     'swallow' (caller's transaction, exception caught inside it, transaction committed).
     Returns dict(before, stmts, outcome, same, fresh)."""
     tname = db.table["name"]
+    schema = getattr(db, "schema", None)
     stmts = []
     res = {}
     with db.engine.connect() as conn:
-        res["before"] = observe_db(conn, tname, universe)
+        res["before"] = observe_db(conn, tname, universe, schema)
         if conn.in_transaction():
             conn.rollback()
         n = [0]
@@ -584,7 +633,7 @@ def run_batch(db, ops, recreate="always", copy_from=False, fault=None, scope="no
         def bce(c, cursor, statement, parameters, context, executemany):
             if _IGN.match(statement):
                 return
-            stmts.append(abstract_stmt(statement, tname))
+            stmts.append(abstract_stmt(statement, tname, schema))
             i = n[0]
             n[0] += 1
             if fault is not None and i == fault:
@@ -595,6 +644,8 @@ def run_batch(db, ops, recreate="always", copy_from=False, fault=None, scope="no
         ctx = MigrationContext.configure(conn, opts={} if tddl is None else {"transactional_ddl": tddl})
         op = Operations(ctx)
         kw = {"recreate": recreate}
+        if schema:
+            kw["schema"] = schema
         if pr:
             kw["partial_reordering"] = tuple(tuple(x) for x in pr)
         kw.update(batch_kw or {})
@@ -608,7 +659,7 @@ def run_batch(db, ops, recreate="always", copy_from=False, fault=None, scope="no
         def body():
             with op.batch_alter_table(tname, **kw) as b:
                 for o in ops:
-                    apply_op(b, o)
+                    apply_op(b, o, schema)
 
         outcome = "ok"
         with warnings.catch_warnings():
@@ -638,7 +689,7 @@ def run_batch(db, ops, recreate="always", copy_from=False, fault=None, scope="no
             conn.rollback()
         res["stmts"] = stmts
         res["outcome"] = outcome
-        res["same"] = observe_db(conn, tname, universe)
+        res["same"] = observe_db(conn, tname, universe, schema)
     with db.engine.connect() as c2:
-        res["fresh"] = observe_db(c2, tname, universe)
+        res["fresh"] = observe_db(c2, tname, universe, schema)
     return res
